@@ -10,7 +10,7 @@ DST = os.path.join(os.path.dirname(os.path.dirname(os.path.abspath(__file__))), 
 # neutralised by a genuine-defect repair (the demo passes with the patch applied to the repaired tree): not kept
 DROPPED = {("C02", "A"), ("C19", "A")}
 # changes labelled with one property which are decided by the check of another one (tools/seeded_matrix.py runs these too)
-ALSO_RUN = {("C17", "2B"): ["C09"], ("C07", "3B"): ["C02"], ("C10", "3B"): ["C06"], ("C16", "4B"): ["C02"]}
+ALSO_RUN = {("C17", "2B"): ["C09"], ("C07", "3B"): ["C02"], ("C10", "3B"): ["C06"], ("C16", "4B"): ["C02"], ("C17", "4B"): ["C09"]}
 # rebased onto the repaired tree: the rebased patch is the one to keep
 REBASED = {("C11", "B"): "patch_rebased.diff"}
 for OUT, PREFIX in OUTS:
